@@ -66,6 +66,9 @@ def _data_vectors(rs, n, xs):
     sp = np.zeros(n)
     sp[rs.randint(n)] = 1.0
     out.append(("spike", sp))
+    # interpolation is linear: uniformly tiny / huge data must be reproduced with the same RELATIVE accuracy
+    out.append(("tiny", rs.standard_normal(n) * 10.0 ** rs.uniform(-300, -9)))
+    out.append(("huge", rs.standard_normal(n) * 10.0 ** rs.uniform(9, 200)))
     return out
 
 
@@ -200,9 +203,14 @@ def _case_2d(case, spl):
     interp = spl.SplineInterpolator2D(b1, b2)
     cls, ev = set(), {"interp2d_points_compared": 0, "wrap_checks": 0, "poly_points_compared": 0}
     wit = {"cfg1": case["cfg1"], "cfg2": case["cfg2"], "seed": case["seed"]}
-    for dname in ("random", "decades", "separable-poly"):
+    for dname in ("random", "decades", "tiny", "tiny-rows", "separable-poly"):
         if dname == "random":
             U = rs.standard_normal((n1, n2))
+        elif dname == "tiny":
+            U = rs.standard_normal((n1, n2)) * 10.0 ** rs.uniform(-200, -9)
+        elif dname == "tiny-rows":
+            # rows of very different magnitude; the smallest ones are still far above rounding of the largest
+            U = rs.standard_normal((n1, n2)) * (10.0 ** rs.choice([0.0, -9.0, -10.0], size=n1))[:, None]
         elif dname == "decades":
             U = rs.standard_normal((n1, n2)) * 10.0 ** rs.uniform(-6, 6, (n1, n2))
         else:
